@@ -276,6 +276,43 @@ func checkC10(c *Ctx) {
 		c.check("encode.index-order", f.Name, f.Decl.Pos(), len(loops) == 0, "objects and lists must be emitted index-wise in declaration order; no iteration over a map on the output path")
 	}
 
+	jsonImporterKeyRule(c)
+	c.expect("decode.key-unquoted-only-if-safe", 1)
+	c.note("appendJSON path: %d calls of internal/encoding/json.Marshal", nStr)
+}
+
+func keysOfSet(m map[int]bool) []int {
+	var out []int
+	for k := range m {
+		out = append(out, k)
+	}
+	sortInts(out)
+	return out
+}
+
+// c10FlowsTo: some call of callee in f has an argument satisfying pred
+// (directly, or a local variable assigned from an expression satisfying it).
+func c10FlowsTo(f *Fn, callee string, pred func(ast.Expr) bool) bool {
+	info := f.Info()
+	found := false
+	ast.Inspect(f.Body, func(n ast.Node) bool {
+		call, ok := n.(*ast.CallExpr)
+		if !ok || calleeName(info, call) != callee {
+			return true
+		}
+		for _, a := range call.Args {
+			if pred(a) {
+				found = true
+			}
+		}
+		return true
+	})
+	return found
+}
+
+// jsonImporterKeyRule (shared by C10 and C12): identifier labels only when
+// quoting is not needed.
+func jsonImporterKeyRule(c *Ctx) {
 	// (e) importer: identifier labels only when quoting is not needed
 	pf := c.fn("internal/encoding/json", "PatchExpr")
 	for _, l := range append([]*Fn{pf}, c.lits(pf)...) {
@@ -316,35 +353,4 @@ func checkC10(c *Ctx) {
 			"a JSON key may be turned into an identifier label only when ast.StringLabelNeedsQuoting(key) is false — the same predicate the CUE printer uses; otherwise keys such as \"#a\", \"_x\" or \"a-b\" change meaning")
 		c.analysed[l.Name] = true
 	}
-	c.expect("decode.key-unquoted-only-if-safe", 1)
-	c.note("appendJSON path: %d calls of internal/encoding/json.Marshal", nStr)
-}
-
-func keysOfSet(m map[int]bool) []int {
-	var out []int
-	for k := range m {
-		out = append(out, k)
-	}
-	sortInts(out)
-	return out
-}
-
-// c10FlowsTo: some call of callee in f has an argument satisfying pred
-// (directly, or a local variable assigned from an expression satisfying it).
-func c10FlowsTo(f *Fn, callee string, pred func(ast.Expr) bool) bool {
-	info := f.Info()
-	found := false
-	ast.Inspect(f.Body, func(n ast.Node) bool {
-		call, ok := n.(*ast.CallExpr)
-		if !ok || calleeName(info, call) != callee {
-			return true
-		}
-		for _, a := range call.Args {
-			if pred(a) {
-				found = true
-			}
-		}
-		return true
-	})
-	return found
 }
